@@ -739,22 +739,28 @@ def argmin(array, axis=None, keepdims=False, mask_identity=True):
 
     if axis is None:
         if isinstance(layout, ak.partition.PartitionedArray):
-            start = 0
+            starts = []
             best_index = None
             best_value = None
             for partition in layout.partitions:
-                for tmp in ak._util.completely_flatten(partition):
+                for i, tmp in enumerate(ak._util.completely_flatten(partition)):
+                    if i >= len(starts):
+                        starts.append(0)
+                    if len(tmp) == 0:
+                        continue
                     out = ak.nplike.of(tmp).argmin(tmp, axis=None)
                     if best_index is None or tmp[out] < best_value:
-                        best_index = start + out
+                        best_index = starts[i] + out
                         best_value = tmp[out]
-                start += len(partition)
+                    starts[i] += len(tmp)
             return best_index
 
         else:
             best_index = None
             best_value = None
             for tmp in ak._util.completely_flatten(layout):
+                if len(tmp) == 0:
+                    continue
                 out = ak.nplike.of(tmp).argmin(tmp, axis=None)
                 if best_index is None or tmp[out] < best_value:
                     best_index = out
@@ -809,22 +815,28 @@ def argmax(array, axis=None, keepdims=False, mask_identity=True):
 
     if axis is None:
         if isinstance(layout, ak.partition.PartitionedArray):
-            start = 0
+            starts = []
             best_index = None
             best_value = None
             for partition in layout.partitions:
-                for tmp in ak._util.completely_flatten(partition):
+                for i, tmp in enumerate(ak._util.completely_flatten(partition)):
+                    if i >= len(starts):
+                        starts.append(0)
+                    if len(tmp) == 0:
+                        continue
                     out = ak.nplike.of(tmp).argmax(tmp, axis=None)
                     if best_index is None or tmp[out] > best_value:
-                        best_index = start + out
+                        best_index = starts[i] + out
                         best_value = tmp[out]
-                start += len(partition)
+                    starts[i] += len(tmp)
             return best_index
 
         else:
             best_index = None
             best_value = None
             for tmp in ak._util.completely_flatten(layout):
+                if len(tmp) == 0:
+                    continue
                 out = ak.nplike.of(tmp).argmax(tmp, axis=None)
                 if best_index is None or tmp[out] > best_value:
                     best_index = out
